@@ -537,6 +537,12 @@ func (c *Cron) Rem(ctx *core.Context, id string) (bool, error) {
 	// with many thousands of instances.
 	c.Lock()
 	found, err := c.rem(ctx, id)
+	if found {
+		// The timer may be armed for the job just removed.  Re-arm
+		// it for the new head (or stop it); otherwise it expires,
+		// finds the head not ready and is never armed again.
+		c.resetTimer()
+	}
 	c.Unlock()
 
 	return found, err
